@@ -139,8 +139,9 @@ CLAIMED = {
              "only). Real two-window engines (shared / disjoint vocabulary, static data, rules, four synchronisation policies, single and "
              "multi-threaded with perturbed schedules) are run and TLC judges every emission against the fire events recorded under the store lock.",
         design_ref="DESIGN.md section 5 (C11)",
-        note="Trusted: TLC, hooks, recording harness. No design-level MultiImpl model (DESIGN.md L1) is checked - the claim rests on trace "
-             "validation of sampled scenarios; reported contents come from the hook's fire events rather than from a separate probe window.",
+        note="Trusted: TLC, hooks, recording harness. MultiImpl.tla (L1) checks the design (shared store with shared eviction list, workers, "
+             "coordinator policies) for all interleavings of a small instance; the code is bound to the requirement by trace validation of "
+             "sampled scenarios; reported contents come from the hook's fire events rather than from a separate probe window.",
         technique="TLA+ requirement checked by TLC on hook-recorded traces of multi-window engines under perturbed schedules (trace validation)",
     ),
     "C16": dict(
